@@ -23,7 +23,10 @@
       driver (`asciiFns`), opaque in the proofs;
     * scalar fields are `Integer` fields; `Set[...]` is treated like `Array[...]` (the harness compares
       sets order-insensitively).
-  Out of the model (documented limits of C07): FunctionCall / Constant mapper values, Map values.
+  Also modelled: `_deserialization_mapper` (`CInfo.des`), `_additional_properties = False` own / inherited and
+  `keep_undefined` (`deserK`), several bases (Sem/MapperMro.lean), structures stored as Map values (`Fld.mapped`,
+  `serC`), the cache with nested-class entries (`cAggregate`).
+  Out of the model (documented limits of C07): FunctionCall / Constant mapper values, non-Integer scalars, compact wrappers.
 -/
 namespace Typedpy.Mappers
 
@@ -236,6 +239,9 @@ def CInfo.lst (ci : CInfo) (forSer : Bool) : List Mapper := if forSer then ci.se
 inductive Fld where
   | scalar (name : String) (opt : Bool)
   | nested (name : String) (opt : Bool) (shape : Shape) (ci : CInfo) (fields : List Fld)
+  /-- a `Map[String, Cls]` field: every value is serialized / deserialized as a call of its own
+      (own mappers of `Cls` only, nothing of the containing class passes through) -/
+  | mapped (name : String) (opt : Bool) (ci : CInfo) (fields : List Fld)
 deriving Repr, Inhabited
 
 structure Cls where
@@ -252,10 +258,12 @@ def Cls.desL (c : Cls) : List Mapper := c.des.getD c.own
 def Fld.name : Fld → String
   | .scalar n _ => n
   | .nested n _ _ _ _ => n
+  | .mapped n _ _ _ => n
 
 def Fld.opt : Fld → Bool
   | .scalar _ o => o
   | .nested _ o _ _ _ => o
+  | .mapped _ o _ _ => o
 
 mutual
 /-- `_set_base_mapper_no_op`: the identity mapper, with the nested class's own aggregate under
@@ -268,6 +276,7 @@ def baseFld (S : StrFns) (forSer : Bool) : Fld → MDict
   | .scalar n _ => [(.fld n, .key n)]
   | .nested n _ _ ci fs =>
     [(.nest n, .sub (foldAdd S forSer (ci.lst forSer) (baseFields S forSer fs))), (.fld n, .key n)]
+  | .mapped n _ _ _ => [(.fld n, .key n)]
 termination_by structural f => f
 end
 
@@ -319,6 +328,7 @@ def cBaseFld (S : StrFns) : Cache → Fld → MDict × Cache
       let b := cBaseFields S cache fs
       let m := foldAdd S true ci.ser b.1
       ([(.nest n, .sub m), (.fld n, .key n)], b.2 ++ [((ci.cid, "", false), m)])
+  | cache, .mapped n _ _ _ => ([(.fld n, .key n)], cache)
 termination_by structural _ f => f
 end
 
@@ -413,6 +423,48 @@ def serList (S : StrFns) (camel : Bool) : MDict → List J → List J
 termination_by structural _ xs => xs
 end
 
+def findFld (fs : List Fld) (n : String) : Option Fld := fs.find? (fun f => f.name == n)
+
+mutual
+/-- the serializer following the class: as `ser`, except that the values of a `Map[String, Cls]` field are
+    serialized with the fresh aggregate of `Cls` (own mappers, the call's `camel_case_convert`) -/
+def serC (S : StrFns) (camel : Bool) : MDict → List Fld → J → J
+  | m, fs, .obj kvs => .obj (serCFields S camel m fs kvs)
+  | m, fs, .arr xs => .arr (serCList S camel m fs xs)
+  | _, _, .null => .null
+  | _, _, .int i => .int i
+  | _, _, .str s => .str s
+termination_by structural _ _ x => x
+def serCFields (S : StrFns) (camel : Bool) : MDict → List Fld → List (String × J) → List (String × J)
+  | _, _, [] => []
+  | m, fs, (f, v) :: rest =>
+    if v.isNull then serCFields S camel m fs rest
+    else match serKey S camel m f with
+      | none => serCFields S camel m fs rest
+      | some k =>
+        (k, match findFld fs f with
+            | some (.nested _ _ _ _ fs') => serC S camel (subSer m f) fs' v
+            | some (.mapped _ _ ci fs') =>
+              serCMapVal S camel (foldAdd S true (effList ci.ser none camel) (baseFields S true fs')) fs' v
+            | _ => v) :: serCFields S camel m fs rest
+termination_by structural _ _ kvs => kvs
+def serCList (S : StrFns) (camel : Bool) : MDict → List Fld → List J → List J
+  | _, _, [] => []
+  | m, fs, x :: xs => serC S camel m fs x :: serCList S camel m fs xs
+termination_by structural _ _ xs => xs
+def serCMapVal (S : StrFns) (camel : Bool) : MDict → List Fld → J → J
+  | m, fs, .obj kv => .obj (serCMap S camel m fs kv)
+  | _, _, .arr xs => .arr xs
+  | _, _, .null => .null
+  | _, _, .int i => .int i
+  | _, _, .str s => .str s
+termination_by structural _ _ x => x
+def serCMap (S : StrFns) (camel : Bool) : MDict → List Fld → List (String × J) → List (String × J)
+  | _, _, [] => []
+  | m, fs, (k, v) :: rest => (k, serC S camel m fs v) :: serCMap S camel m fs rest
+termination_by structural _ _ kvs => kvs
+end
+
 /-- exception classes of the deserializer -/
 inductive DErr where
   | typeErr
@@ -502,6 +554,19 @@ def dNested (n : String) (opt : Bool) (shape : Shape) (inp : DR J) (g : J → DR
         | .arr xs => bindD (mapD g xs) fun ys => bindD rest fun r => .ok ((n, .arr ys) :: r)
         | _ => .error .valueErr
 
+def mapKV (g : J → DR J) : List (String × J) → DR (List (String × J))
+  | [] => .ok []
+  | (k, v) :: r => bindD (g v) fun y => bindD (mapKV g r) fun ys => .ok ((k, y) :: ys)
+
+/-- `deserialize_map` with structure values: a dict, every value through the value class -/
+def dMapped (n : String) (opt : Bool) (inp : DR J) (g : J → DR J)
+    (rest : DR (List (String × J))) : DR (List (String × J)) :=
+  bindD inp fun v =>
+    match v with
+    | .null => if opt then bindD rest fun r => .ok ((n, .null) :: r) else .error .typeErr
+    | .obj kvs => bindD (mapKV g kvs) fun ys => bindD rest fun r => .ok ((n, .obj ys) :: r)
+    | _ => .error .typeErr
+
 /-- the object case of `deserialize_structure_internal` (no undefined keys kept) -/
 def dObj (doc : J) (k : List (String × J) → DR (List (String × J))) : DR J :=
   match doc with
@@ -549,6 +614,14 @@ def deserFld (S : StrFns) (camel ku : Bool) (M : MDict) (strict : Bool) (kvs : L
         (extrasOf (kuNext ku camel ci.desL) ci.closedAny (fs.map Fld.name)) fun kvs' =>
         deserFields S camel (kuNext ku camel ci.desL)
           (aggregate S false ci.desL fs (subDeser M n) camel) false kvs' fs) rest
+  | .mapped n opt ci fs, rest =>
+    -- a value of the map: `deserialize_structure_internal(Cls, value, mapper=None, keep_undefined=<the
+    -- caller's, since /repo 73883e4>, camel_case_convert)`
+    dMapped n opt (procInput S M strict kvs n)
+      (fun y => dObjK y ci.closedAny
+        (extrasOf (kuNext ku camel ci.desL) ci.closedAny (fs.map Fld.name)) fun kvs' =>
+        deserFields S camel (kuNext ku camel ci.desL)
+          (aggregate S false ci.desL fs none camel) false kvs' fs) rest
 termination_by structural f => f
 end
 
@@ -566,6 +639,10 @@ def deser (S : StrFns) (camel : Bool) (c : Cls) (ov : Option MDict) (strict : Bo
 /-- top-level serialization: `serialize(x, mapper=ov, camel_case_convert=camel)` -/
 def serialize (S : StrFns) (camel : Bool) (c : Cls) (ov : Option MDict) (x : J) : J :=
   ser S camel (aggregate S true c.own c.fields ov camel) x
+
+/-- top-level serialization following the class (Map-valued fields included) -/
+def serializeC (S : StrFns) (camel : Bool) (c : Cls) (ov : Option MDict) (x : J) : J :=
+  serC S camel (aggregate S true c.own c.fields ov camel) c.fields x
 
 /-- `Serializer/Deserializer.__validate__`: every key of an explicit mapper must start (up to the
     first dot) with a field name -/
